@@ -22,6 +22,7 @@ type dumper struct {
 	tokOK   bool
 	tokWhy  string
 	accFunc map[*ast.FunctionLiteral]bool // getter/setter literals (no "function" keyword)
+	nameSeq []string                      // kind:name of every identifier-bearing node, pre-order
 }
 
 func isNilNode(n ast.Node) bool {
@@ -164,6 +165,7 @@ func (d *dumper) node(n ast.Node) string {
 		return t(set("KFunction"), zs(int(n.Function)), kids)
 	case *ast.Identifier:
 		d.at(n.Idx, n.Name, "Identifier")
+		d.nameSeq = append(d.nameSeq, "id:"+n.Name)
 		return t(set("KIdentifier"), zs(int(n.Idx), len(n.Name), d.nameID(n.Name)), nil)
 	case *ast.NewExpression:
 		d.at(n.New, "new", "NewExpression.New")
@@ -209,6 +211,7 @@ func (d *dumper) node(n ast.Node) string {
 		return t(set("KUnary"), zs(int(n.Idx), pf), []string{d.slotI(n.Operand)})
 	case *ast.VariableExpression:
 		d.at(n.Idx, n.Name, "VariableExpression")
+		d.nameSeq = append(d.nameSeq, "var:"+n.Name)
 		return t(set("KVarExpr"), zs(int(n.Idx), len(n.Name)), []string{d.slotI(n.Initializer)})
 	case *ast.BadStatement:
 		return t(set("KBadStmt"), zs(int(n.From), int(n.To)), nil)
